@@ -62,8 +62,14 @@ fn stage<T>(f: impl FnOnce() -> Result<T, Box<Error>>, describe: impl FnOnce(&T)
     let r = std::panic::catch_unwind(std::panic::AssertUnwindSafe(f));
     match r {
         Ok(Ok(v)) => {
-            let d = describe(&v);
-            (json!({"status": "ok", "detail": d}), Some(v))
+            // `describe` calls further API of the value under test (get_locales, get_icu_keys, ...): same rules
+            match std::panic::catch_unwind(std::panic::AssertUnwindSafe(|| describe(&v))) {
+                Ok(d) => (json!({"status": "ok", "detail": d}), Some(v)),
+                Err(_) => {
+                    let (msg, loc) = take_panic();
+                    (json!({"status": "panic", "msg": msg, "loc": norm_loc(&loc)}), None)
+                }
+            }
         }
         Ok(Err(e)) => (err_report(&e), None),
         Err(_) => {
